@@ -34,7 +34,13 @@ def collect(prog, alias):
             if any(e["k"] == "index" for e in pr):
                 idx = [accept.apply_alias(sy.name(an.terms.local(e["l"])), alias) for e in pr if e["k"] == "index"]
                 val = accept.apply_alias(sy.name(an.terms.rvalue(st["rv"])), alias)
-                guards = sorted(accept.apply_alias(g, alias) for g in store_guards(an, sy, bi))
+                # the stored collection (inside Some{..}): guards on it (`!signal.is_empty()`) decide whether the slot is filled
+                inner_val = None
+                rvt = strip(an.terms.rvalue(st["rv"]))
+                if rvt[0] == "aggr" and rvt[1].endswith("Option::Some") and rvt[2]:
+                    inner_val = sy.name(rvt[2][0])
+                guards = sorted(accept.apply_alias(g.replace(inner_val, "SIGNAL") if inner_val else g, alias)
+                                for g in store_guards(an, sy, bi, inner_val))
                 out["stores"].append({"array_type": arr_ty(body.locals[l]["ty"]), "index": idx, "value": val, "slot_guards": guards})
     out["stores"].sort(key=lambda s: s["array_type"])
     # grouping of chunks
@@ -73,15 +79,16 @@ def arr_ty(ty):
     return "array%dd" % d
 
 
-def store_guards(an, sy, bb):
-    """boolean atoms dominating a store that mention the stored-to array (the duplicate guard)"""
+def store_guards(an, sy, bb, stored=None):
+    """boolean atoms dominating a store that mention the stored-to array (the duplicate guard) or the stored
+    collection itself (the non-empty guard)"""
     out = []
     for (d, rel, vals) in an.atoms_at(bb):
         for a in sy.atoms(d, rel, vals):
             from ..sym import atom_str
             s = atom_str(a)
             import re as _re
-            if _re.search(r"var<\[.*\]>\[", s):
+            if _re.search(r"var<\[.*\]>\[", s) or (stored and stored in s):
                 out.append(s)
     return out
 
